@@ -238,12 +238,30 @@ def run(ctx):
             ctx.violate("dt.tables", f"anchor|{ty}", f"TryFrom<u32> for {ty} not found")
             continue
         n += 1
-        tbl, other = match_table(r["hir"])
         exp = {i: nm for i, nm in enumerate(names)}
-        if tbl != exp:
-            ctx.violate("dt.tables", f"tryfrom|{ty}", f"{ty}::try_from(u32) accepts {tbl}, expected exactly {exp}", r["file"], r["line"])
-        if other is None or not any(H.tag(x) == "ret" or (H.tag(x) == "call" and (H.call_path(x) or "").endswith("::Err")) for x in H.walk(other)):
-            ctx.violate("dt.tables", f"tryfrom|{ty}|reject", f"{ty}::try_from(u32): values outside the table are not rejected", r["file"], r["line"])
+        # acceptance table by interpretation over every value the bit field can hold (and a margin), whatever the code shape
+        from ..minieval import Mini, Panic, Unsupported
+        FBm = {c: facts(c) for c in ("wow_world_base",)}
+        tbl, bad = {}, None
+        for v in list(range(0, 64)) + [255, 256, 0xFFFFFFFF]:
+            try:
+                res = Mini(FBm, "wow_world_base").call_fn(r["path"], [v])
+            except (Unsupported, Panic) as e:
+                bad = f"{type(e).__name__}: {e}"
+                break
+            if isinstance(res, tuple) and res[0] == "Ok":
+                x = res[1]
+                tbl[v] = x[1].split("::")[-1] if isinstance(x, tuple) and x[0] == "variant" else repr(x)
+            elif not (isinstance(res, tuple) and res[0] == "Err"):
+                bad = f"returns {res!r} for {v}"
+                break
+        if bad:
+            ctx.violate("dt.tables", f"tryfrom|{ty}", f"{ty}::try_from(u32): not interpretable — review ({bad})", r["file"], r["line"])
+        elif tbl != exp:
+            extra = {k: v for k, v in tbl.items() if exp.get(k) != v}
+            missing = {k: v for k, v in exp.items() if k not in tbl}
+            ctx.violate("dt.tables", f"tryfrom|{ty}", f"{ty}::try_from(u32) {'accepts ' + str(extra) + ' ' if extra else ''}{'rejects ' + str(missing) + ' ' if missing else ''}"
+                        f"— the documented table is exactly {exp} and every other value must be an error", r["file"], r["line"])
         ai = F.fn(f"{MOD}::{ty}::as_int")
         if ai is not None:
             body = H.strip(ai["hir"])
